@@ -774,8 +774,8 @@ def coq_chunks(c):
 
 def elig_writer(case, model):
     f = case.split("\t")
-    if len(f) == 6 and f[0] == "cont":
-        return True
+    if len(f) == 7 and f[0] == "cont":
+        return len(case) <= 700
     if len(f) != 7 or len(case) > 500:
         return False
     return sum(int(t.partition("*")[2] or 1) for t in f[4].split(",") if t not in ("-", "")) <= 400
@@ -785,7 +785,12 @@ def emit_writer(n, case, impl):
     f = case.split("\t")
     if f[0] == "cont":
         k, w = f[3][2:].split("/")
-        return [], "cont_spec_finished %s %s" % (coq_nat(k), coq_nat(w)), None
+        cs, fin = writer_calls(f[6])
+        script = "(repeat (Accept %s) %s ++ %s)" % (coq_nat(1000), coq_nat(k), coq_script(f[5]))
+        defs = ["Definition o%d := Eval vm_compute in x_cont_session %s FlushOk [] %s %s." % (
+            n, script, "[" + "; ".join(coq_chunks(c) for c in cs) + "]", coq_chunks(fin))]
+        m = "(map (fun c : callres => let '(st, _, _, _) := c in st) (o_calls o%d), option_map (fun c : callres => let '(st, _, _, _) := c in st) (o_fin o%d), s_data (o_final o%d))" % (n, n, n)
+        return defs, "cont_spec_finished %s %s" % (coq_nat(k), coq_nat(w)), m
     _kind, _keys, prefill, cap, script, flush, calls = f
     cs, fin = writer_calls(calls)
     fl = "FlushOk" if flush == "ok" else "(FlushFail %s)" % coq_ioerr(flush[1:])
@@ -860,7 +865,9 @@ def render_c07(case, impl, s, m):
 
 def render_c11(case, impl, s, m):
     if case.startswith("cont\t"):
-        return "finished=yes" if coq_b(s) else "finished=no", None
+        sts, fin, data = m
+        ms = "%s|%s|len=%d|dig=%08x" % (",".join(status_string(x) for x in sts), opt(fin, status_string, "none"), len(data), fnv32(data, len(data)))
+        return "finished=yes" if coq_b(s) else "finished=no", ms
     prefill, rcalls, rfin, data, flushes, buffered, memdata, unfl, common = writer_common(case, m)
     allst = [c[0] for c in rcalls] + ([] if rfin == "None" else [rfin.args[0][0]])
     fe = next(((i, st.args[0]) for i, st in enumerate(allst) if is_app(st, "IoErr", 1)), None)
